@@ -2,7 +2,8 @@
 from ..runner import Prop
 from ..bounded import approx_common as ac
 
-BUDGET = {0.1: 3000, 0.5: 6000, 0.9: 20000}
+BUDGET = {0.1: 3000, 0.5: 6000, 0.9: 20000}          # potential scale > 1
+BUDGET_SCALE1 = {0.1: 1500, 0.5: 2000, 0.9: 8000}    # potential scale <= 1
 
 
 def _interleave(*lists):
@@ -25,7 +26,7 @@ class C17(Prop):
                    'over <= 4 attributes of size 2..3 with random potentials on EVERY region, d in {0.1, 0.5, 0.9}, totals {1, 10}, tol in {1e-9, 1e-10}, '
                    'minimal in {True, False}. Clauses on the returned tables mu (p_r = mu_r/total): '
                    '(1) regions = the intersection closure of the cliques (computed by the harness); '
-                   '(2) convergence within the iteration budget (3000/6000/20000 sweeps for d = 0.1/0.5/0.9): mean L1 parent/child disagreement, '
+                   '(2) convergence within the iteration budget (3000/6000/20000 sweeps for d = 0.1/0.5/0.9; 1500/2000/8000 when the potential scale is 1): mean L1 parent/child disagreement, '
                    'recomputed with numpy over the edges of the object\'s region graph, <= tol; '
                    '(3) every table finite, nonnegative, sums to total; '
                    '(4) any two regions agree on their shared attributes to 1e-7*total (all pairs, not only graph edges); '
@@ -41,7 +42,8 @@ class C17(Prop):
                     'weak duality of the convexified free-energy programme (unit counting numbers, strictly concave objective)',
                     'mbi.Domain / mbi.Factor constructors and Factor.values used to pass potentials in and read tables out']
     assumptions = ['bounded: <= 4 attributes of size <= 3, potentials N(0, scale^2) with scale <= 3, finite potentials only (-inf out of scope)',
-                   'iteration budgets 3000/6000/20000 for damping 0.1/0.5/0.9 (>= 5x the largest sweep count observed in calibration)',
+                   'iteration budgets 3000/6000/20000 for damping 0.1/0.5/0.9 (1500/2000/8000 at potential scale 1): >= 5x the largest sweep count observed in calibration '
+                   '(570/1035/3728 at scale 3; 129/270/1267 at scale 1)',
                    'the statement is conditional on convergence: the all-triples set {abc,abd,acd,bcd} at damping 0.1 does NOT converge on the unchanged tree '
                    '(feasibility stays O(total) after 20000 sweeps for potential scale 3); damping < 0.5 on that set is outside the calibrated family, '
                    'one such probe is run in the thorough tier and reported as hypothesis-unmet when it does not converge',
@@ -68,10 +70,11 @@ class C17(Prop):
             n = len(set(sum(cl, ())))
             state['k'] += 1
             k = state['k']
+            sc = float(scale if scale is not None else rng.choice([1.0, 2.0]))
             return dict(attrs=ac.ATTRS[:n], shape=shape or [int(rng.randint(2, 4)) for _ in range(n)], cliques=ac.jl(cl), damping=damping,
-                        iters=BUDGET[damping], convergence=[1e-9, 1e-10][k % 2], total=[1.0, 10.0][(k // 2) % 2],
+                        iters=(BUDGET_SCALE1 if sc <= 1.0 else BUDGET)[damping], convergence=[1e-9, 1e-10][k % 2], total=[1.0, 10.0][(k // 2) % 2],
                         minimal=bool(k % 5 != 0) if minimal is None else minimal,
-                        pot_seed=int(rng.randint(1 << 30)), pot_scale=float(scale if scale is not None else rng.choice([1.0, 2.0])))
+                        pot_seed=int(rng.randint(1 << 30)), pot_scale=sc)
 
         slow, mid, fast = [], [], []
         all3 = ac.all_triples(4)
